@@ -5,7 +5,7 @@ from contracts.units.common import ENTRY_ITEMS, ENTRY_SPEC, POLICY_ITEMS
 STATS = 'cachelito-core/src/stats.rs'
 
 # R7: &self -> &mut self on the counters (AtomicU64 is the sequential shim of the prelude)
-STATS_SELF = R('R7.receiver', r'\( & self\b', r'(&mut self', 'CacheStats methods take &mut self over the sequential AtomicU64 shim')
+STATS_SELF = R('R7.receiver', r'\( & self\b(?! \.)', r'(&mut self', 'CacheStats methods take &mut self over the sequential AtomicU64 shim')
 
 STATS_ITEMS = [
     dict(kind='struct', file=STATS, name='CacheStats'),
@@ -56,3 +56,94 @@ pub open spec fn evicted<R>(m0: Map<String, CacheEntry<R>>, q0: Seq<String>, m1:
 ''')
 
 COMMON = ENTRY_ITEMS + [ENTRY_SPEC] + POLICY_ITEMS + STATS_ITEMS + [ENGINE_SPEC]
+
+
+# ---------------------------------------------------------------------------------------------
+# Contract builders shared by the sync engines (field names differ: GlobalCache.map / ThreadLocalCache.cache)
+def wf_pre(m):
+    return [('wf', 'wf(old(self).%s@, old(self).order@)' % m)]
+
+
+CFG_FRAME = ('cfg_frame', ['C01', 'C04'],
+             'final(self).limit == old(self).limit && final(self).max_memory == old(self).max_memory && final(self).policy == old(self).policy '
+             '&& final(self).ttl == old(self).ttl && final(self).frequency_weight == old(self).frequency_weight')
+
+
+def get_ensures(m, stats=True):
+    M0 = 'old(self).%s@' % m
+    M1 = 'final(self).%s@' % m
+    K = 's2s(key)'
+    e = [
+        CFG_FRAME,
+        ('post_wf', ['C04', 'C06', 'C13'], 'wf(%s, final(self).order@)' % M1),
+        ('never_serves_expired', ['C06'], 'res is Some ==> %s.contains_key(%s) && !expired(%s[%s], old(self).ttl)' % (M0, K, M0, K)),
+        ('value_of_key', ['C01'], 'res is Some ==> cloned(%s[%s].value, res->Some_0)' % (M0, K)),
+        ('serves_unexpired', ['C03', 'C06'], '%s.contains_key(%s) && !expired(%s[%s], old(self).ttl) ==> res is Some' % (M0, K, M0, K)),
+        ('purges_expired', ['C06', 'C04'], '%s.contains_key(%s) && expired(%s[%s], old(self).ttl) ==> '
+         '%s == %s.remove(%s) && final(self).order@ == rm1(old(self).order@, %s)' % (M0, K, M0, K, M1, M0, K, K)),
+        ('miss_changes_nothing', ['C03', 'C04', 'C20'], '!%s.contains_key(%s) ==> %s == %s && final(self).order@ == old(self).order@' % (M0, K, M1, M0)),
+        ('hit_keeps_entries', ['C01', 'C03', 'C20'], 'res is Some ==> %s.dom() == %s.dom() '
+         '&& forall|x: String| x != %s && %s.contains_key(x) ==> #[trigger] %s[x] == %s[x]' % (M1, M0, K, M0, M1, M0)),
+        ('hit_keeps_value', ['C01', 'C06'], 'res is Some ==> %s[%s].value == %s[%s].value && %s[%s].inserted_at == %s[%s].inserted_at' % (M1, K, M0, K, M1, K, M0, K)),
+        ('hit_counts', ['C08'], 'res is Some ==> %s[%s].frequency == (if hit_counts(old(self).policy) { bump(%s[%s].frequency) } else { %s[%s].frequency })' % (M1, K, M0, K, M0, K)),
+        ('hit_recency', ['C07', 'C08'], 'res is Some ==> final(self).order@ == (if hit_touches(old(self).policy) { touch(old(self).order@, %s) } else { old(self).order@ })' % K),
+    ]
+    if stats:
+        e.append(('one_counter', ['C15'], 'final(self).stats.hits.v == (if res is Some { old(self).stats.hits.v.wrapping_add(1) } else { old(self).stats.hits.v }) '
+                  '&& final(self).stats.misses.v == (if res is Some { old(self).stats.misses.v } else { old(self).stats.misses.v.wrapping_add(1) })'))
+    return e
+
+
+def incr_ensures(m):
+    M0 = 'old(self).%s@' % m
+    M1 = 'final(self).%s@' % m
+    K = 's2s(key)'
+    return [
+        CFG_FRAME,
+        ('frame', ['C01', 'C07'], 'final(self).order@ == old(self).order@ && final(self).stats == old(self).stats'),
+        ('absent_noop', ['C04'], '!%s.contains_key(%s) ==> %s == %s' % (M0, K, M1, M0)),
+        ('counts', ['C08'], '%s.contains_key(%s) ==> %s.dom() == %s.dom() && %s[%s].frequency == bump(%s[%s].frequency) '
+         '&& %s[%s].value == %s[%s].value && %s[%s].inserted_at == %s[%s].inserted_at '
+         '&& forall|x: String| x != %s && %s.contains_key(x) ==> #[trigger] %s[x] == %s[x]'
+         % (M0, K, M1, M0, M1, K, M0, K, M1, K, M0, K, M1, K, M0, K, K, M0, M1, M0)),
+    ]
+
+
+def evict_requires(m, o):
+    return [('wf', 'wf(old(%s)@, old(%s)@)' % (m, o)),
+            # call sites: the entry just stored sits at the back of the queue with zero hits
+            ('newcomer_unsaturated', 'old(%s)@.len() > 0 ==> old(%s)@.contains_key(old(%s)@.last()) && old(%s)@[old(%s)@.last()].frequency < u64::MAX' % (o, m, o, m, o)),
+            # implied by wf; stated so that the terms are available to the solver
+            ('front_stored', 'old(%s)@.len() > 0 ==> old(%s)@.contains_key(old(%s)@[0]) && old(%s)@.contains(old(%s)@[0])' % (o, m, o, o, o))]
+
+
+def evict_ensures(m, o):
+    return [
+        ('post_wf', ['C04'], 'wf(final(%s)@, final(%s)@)' % (m, o)),
+        ('no_overflow_noop', ['C04', 'C03'], '(limit is None || old(%s)@.len() <= limit->Some_0) ==> final(%s)@ == old(%s)@ && final(%s)@ == old(%s)@' % (o, m, m, o, o)),
+        ('overflow_one_victim', ['C04', 'C07', 'C08'], '(limit is Some && old(%s)@.len() > limit->Some_0) ==> '
+         'exists|v: String| sync_victim_ok(policy, old(%s)@, old(%s)@, v) && final(%s)@ == #[trigger] old(%s)@.remove(v) && final(%s)@ == rm1(old(%s)@, v)' % (o, m, o, m, m, o, o)),
+    ]
+
+
+def insert_ensures(m, stats=True):
+    M0 = 'old(self).%s@' % m
+    M1 = 'final(self).%s@' % m
+    K = 's2s(key)'
+    Q1 = 'touch(old(self).order@, %s)' % K
+    e = [
+        CFG_FRAME,
+        ('post_wf', ['C04', 'C13'], 'wf(%s, final(self).order@)' % M1),
+        ('fits_exact', ['C04', 'C03'], '(old(self).limit is None || %s.len() <= old(self).limit->Some_0) ==> '
+         'final(self).order@ == %s && %s.dom() == %s.dom().insert(%s)' % (Q1, Q1, M1, M0, K)),
+        ('overflow_one_victim', ['C04', 'C07', 'C08'], '(old(self).limit is Some && %s.len() > old(self).limit->Some_0) ==> '
+         'exists|v: String, e: CacheEntry<R>| e.value == value && e.frequency == 0 '
+         '&& sync_victim_ok(old(self).policy, %s.insert(%s, e), %s, v) '
+         '&& %s == #[trigger] %s.insert(%s, e).remove(v) && final(self).order@ == rm1(%s, v)' % (Q1, M0, K, Q1, M1, M0, K, Q1)),
+        ('survivors_unchanged', ['C01', 'C13'], 'forall|x: String| x != %s && #[trigger] %s.contains_key(x) ==> %s.contains_key(x) && %s[x] == %s[x]' % (K, M1, M0, M1, M0)),
+        ('last_store_wins', ['C01', 'C11'], '%s.contains_key(%s) ==> %s[%s].value == value && %s[%s].frequency == 0' % (M1, K, M1, K, M1, K)),
+        ('bound', ['C04'], '(old(self).limit is Some && old(self).limit->Some_0 >= 1 && old(self).order@.len() <= old(self).limit->Some_0) ==> final(self).order@.len() <= old(self).limit->Some_0'),
+    ]
+    if stats:
+        e.append(('stats_frame', ['C15'], 'final(self).stats == old(self).stats'))
+    return e
